@@ -444,6 +444,23 @@ func auditValue(t *Type, rv reflect.Value, dv any, container string, p string, o
 	}
 	switch t.K {
 	case Ptr:
+		if rv.IsNil() && (t.Elem.K == Slice || t.Elem.K == Map) {
+			// the same tolerances as for a slice / map held by value: an array of nulls, or JSON null inside a string, is "no value"
+			if arr, ok := dv.([]any); ok && t.Elem.K == Slice {
+				allNull := true
+				for _, e := range arr {
+					allNull = allNull && e == nil
+				}
+				if allNull {
+					return nil
+				}
+			}
+			if s, ok := dv.(string); ok {
+				if dec, ok2 := decodeJSONString(s); ok2 && dec == nil {
+					return nil
+				}
+			}
+		}
 		if rv.IsNil() {
 			return finding("lost:"+typeClass(t)+"<-"+DocClass(dv), "%s: document value %s present, pointer field is nil, no error", p, short(dv))
 		}
